@@ -3,7 +3,7 @@
    numbers) + Model/RunLoop.v (failed_line_offset / failed_lineno) + Model/Parser.v (part offsets, C13).
    The ast supplies end_lineno and the docstring value, the traceback supplies the doctest-frame line: oracles. *)
 From XD Require Import Model.Base Model.Parser Model.Collect Model.Lines Model.RunLoop
-  Proofs.LinesProofs Proofs.RunEscape.
+  Proofs.LinesProofs Proofs.RunEscape Spec.Partition Proofs.ChunkProofs.
 
 (* a triple-quoted docstring literal (either quote style, optional r/u prefix) opening on line s and closing on
    line e, every newline of its value being a physical line break: the reported start is s *)
@@ -63,3 +63,12 @@ Theorem C08_failed_line_offset : forall ps st tb j f, r_failed st = Some (j, f) 
        end).
 Proof. exact failed_line_defined. Qed.
 Print Assumptions C08_failed_line_offset.
+
+(* part positions: the parts of a source chunk that begins at docstring line n lie back to back from n on, each
+   line offset being the index of the part's first line (ast oracle in range: statements start on lines of the
+   source handed to it) -- this is the `line_offset p` that the failing-line arithmetic above adds to *)
+Theorem C08_part_offsets : forall o raw_src raw_want lineno ps,
+  AstInRange o -> package_chunk o raw_src raw_want lineno = Ok ps ->
+  Consecutive lineno ps (lineno + length raw_src).
+Proof. exact package_chunk_consecutive. Qed.
+Print Assumptions C08_part_offsets.
